@@ -423,7 +423,17 @@ Fixpoint table_vf (t : list (N * N * N * N * N)) (pk h r ri s : N) : bool :=
 Inductive mode :=
 | MBuild (pool : list evidence)          (* Staking.slashing on this pool *)
 | MReplay (sd : slashdata)               (* Staking.replaySlashing on this header.SlashData *)
-| MPenal (a : addr) (amount : Z).        (* doPenalize on validator a with this amount *)
+| MPenal (a : addr) (amount : Z)         (* doPenalize on validator a with this amount *)
+| MVotes (vs : list (N * N * N * N)).    (* every vote one protocol-following validator process sent over its
+                                            life (restarts, crashes): kind, round, index, block hash *)
+
+(* what C02 / C03 prove of every voter history (C03_voter_one_vote): per kind
+   and (round, index) at most one vote, two for next-index (kind 4) *)
+Definition vote_limit (k : N) : nat := if N.eqb k 4%N then 2%nat else 1%nat.
+Definition same_slot (a b : N * N * N * N) : bool :=
+  let '(k, r, i, _) := a in let '(k', r', i', _) := b in N.eqb k k' && N.eqb r r' && N.eqb i i'.
+Definition votes_ok (vs : list (N * N * N * N)) : bool :=
+  forallb (fun v => Nat.leb (length (filter (same_slot v) vs)) (vote_limit (fst (fst (fst v))))) vs.
 
 Record obs := mkObs {
   o_panic : bool;
@@ -510,6 +520,7 @@ Definition case_ok (c : case) : bool :=
       negb (o_panic o) && Bool.eqb err (o_err o)
       && res_matches (match sd with SDList e => e | _ => [] end) res o
     end
+  | MVotes vs => negb (o_panic o) && votes_ok vs
   | MPenal a amount =>
     match find_val (s_vals (k_state c)) a with
     | None => false
